@@ -5,6 +5,14 @@ From PK Require Import Persist.Model Persist.DecoratorProofs Persist.ChainProofs
 Import ListNotations.
 Open Scope Z_scope.
 
+Lemma bind_ok : forall (A B : Type) (a : A) (f : A -> res B), bind (Ok a) f = f a. Proof. reflexivity. Qed.
+Lemma bind_err : forall (A B : Type) (f : A -> res B), bind Err f = Err. Proof. reflexivity. Qed.
+(* like ChainProofs.inv_bind but without `simpl` (which would unfold the mask table) *)
+Ltac inv_bind H ::=
+  match type of H with
+  | bind ?r _ = Ok _ => let E := fresh "E" in destruct r eqn:E; [rewrite bind_ok in H; cbv beta in H|rewrite bind_err in H; discriminate H]
+  end.
+
 (* ------------------------------------------------------------------ sql_in (sql_out q) on the fields Get depends on *)
 Lemma sql_core_roundtrip : forall q, shape_ok q -> penums_ok q -> same_core (sql_in (sql_out q)) q.
 Proof.
@@ -193,9 +201,9 @@ Proof.
   - apply Z.eqb_eq in E1. subst k. destruct (u' =? u) eqn:E2.
     + apply Z.eqb_eq in E2. subst. rewrite Z.eqb_refl. reflexivity.
     + destruct (find_row u rows) eqn:Fr; [|reflexivity].
-      (* rows after the first hit are untouched *) rewrite Z.eqb_sym in E2. rewrite E2. reflexivity.
+      (* rows after the first hit are untouched *) assert (u =? u' = false) as -> by (rewrite Z.eqb_sym; exact E2). reflexivity.
   - destruct (k =? u) eqn:E2.
-    + apply Z.eqb_eq in E2. subst k. rewrite Z.eqb_sym in E1. rewrite E1. reflexivity.
+    + apply Z.eqb_eq in E2. subst k. assert (u =? u' = false) as -> by exact E1. reflexivity.
     + apply IH.
 Qed.
 Lemma find_remove_row : forall rows u u', u <> u' -> find_row u (remove_row u' rows) = find_row u rows.
